@@ -246,9 +246,23 @@ def quad (P : AdvP) (w7 : List Nat) (v : Nat) (st : AdvSt) : Option AdvSt :=
   | none => none
   | some buckets => some ⟨num, buckets⟩
 
-/-- the two `assert_eq!` on `num.len()` and `buckets.len()` -/
+/-- exact table sizes: what the constructors (`InitializeH5/H6`) allocate with an exact allocator -/
 def sizesAsserted (P : AdvP) (st : AdvSt) : Bool :=
   st.num.size == P.bucketSize && st.buckets.size == P.bucketSize * (1 <<< P.blockBits)
+
+/-- the batched paths work on `&mut num[..bucket_size]`, `&mut buckets[..bucket_size * block_size]`
+(an allocator may hand out longer cells): slicing panics on a shorter table, indices beyond the
+slices panic inside `f`, the rest of the cells is untouched.  (The two `assert_eq!` on the slice
+lengths that follow are then true by construction.) -/
+def onTables (P : AdvP) (st : AdvSt) (f : AdvSt → Option AdvSt) : Option AdvSt :=
+  let nb := P.bucketSize * (1 <<< P.blockBits)
+  if st.num.size < P.bucketSize ∨ st.buckets.size < nb then none
+  else
+    match f ⟨st.num.extract 0 P.bucketSize, st.buckets.extract 0 nb⟩ with
+    | none => none
+    | some st' =>
+      some ⟨st'.num ++ st.num.extract P.bucketSize st.num.size,
+            st'.buckets ++ st.buckets.extract nb st.buckets.size⟩
 
 /-- the per-position body of the straddling branch of `StoreRangeOptBatch` -/
 def straddleStep (P : AdvP) (data : ByteArray) (mask p : Nat) (st : AdvSt) : Option AdvSt :=
@@ -283,12 +297,10 @@ def chunk (P : AdvP) (data : ByteArray) (mask ixStart : Nat) (chunkId : Nat) (st
 def storeRangeOptBatch (P : AdvP) (data : ByteArray) (mask ixStart ixEnd : Nat) (st : AdvSt) :
     Option (AdvSt × Nat) :=
   if ixEnd ≥ ixStart + P.lookahead * 2 ∧ P.lookahead = 4 then
-    if sizesAsserted P st then
-      let chunkCount := (ixEnd - ixStart) / 4
-      match forRange (chunk P data mask ixStart) 0 chunkCount st with
-      | none => none
-      | some st => some (st, ixStart + chunkCount * 4)
-    else none
+    let chunkCount := (ixEnd - ixStart) / 4
+    match onTables P st (forRange (chunk P data mask ixStart) 0 chunkCount) with
+    | none => none
+    | some st => some (st, ixStart + chunkCount * 4)
   else some (st, ixStart)
 
 /-- one `chunk_id` of `BulkStoreRangeOptMemFetch`: 35 bytes copied to `data64`, 8 quads -/
@@ -306,12 +318,10 @@ def memFetchChunk (P : AdvP) (data : ByteArray) (ixStart : Nat) (chunkId : Nat) 
 def bulkStoreRangeOptMemFetch (P : AdvP) (data : ByteArray) (mask ixStart ixEnd : Nat)
     (st : AdvSt) : Option (AdvSt × Nat) :=
   if mask = USIZE_MAX ∧ ixEnd > ixStart + 32 ∧ P.lookahead = 4 then
-    if sizesAsserted P st then
-      let del := (ixEnd - ixStart) / 32
-      match forRange (memFetchChunk P data ixStart) 0 del st with
-      | none => none
-      | some st => some (st, ixStart + del * 32)
-    else none
+    let del := (ixEnd - ixStart) / 32
+    match onTables P st (forRange (memFetchChunk P data ixStart) 0 del) with
+    | none => none
+    | some st => some (st, ixStart + del * 32)
   else some (st, ixStart)
 
 /-- `fn StoreRange` -/
